@@ -56,7 +56,12 @@ class TermCollector(IdentityMapper):
 
         The argument `product' has to be fully expanded already.
         """
-        from pymbolic.primitives import AlgebraicLeaf, Power, Product
+        from pymbolic.primitives import (
+            AlgebraicLeaf,
+            Power,
+            Product,
+            QuotientBase,
+        )
 
         def base(term):
             if isinstance(term, Power):
@@ -72,7 +77,7 @@ class TermCollector(IdentityMapper):
 
         if isinstance(mul_term, Product):
             terms = mul_term.children
-        elif isinstance(mul_term, (Power, AlgebraicLeaf)):
+        elif isinstance(mul_term, (Power, AlgebraicLeaf, QuotientBase)):
             terms = [mul_term]
         elif not bool(self.get_dependencies(mul_term)):
             terms = [mul_term]
